@@ -36,6 +36,12 @@ def is_const_cast(t, val):
     return co == {} and k == val
 
 
+def extra_conditions(conds, allowed):
+    """conditions not matched by any predicate in `allowed` (the guard must be exactly the allowed set: an extra
+    guard makes the write happen in fewer cases than the property demands)"""
+    return [x for x in conds if not any(a(x) for a in allowed)]
+
+
 def writers(c, res, adt, field, allowed, pid=PID):
     ws = c.pf.writers_of_field(adt, field, crates={'lorawan_device'})
     seen = {}
@@ -94,7 +100,8 @@ def run(tier):
                                                                                        and x[2][1] == fld(conf, 'data_rate'))
         c_adr = has_true(cs, adr_t)
         c_cnt = any(cond_true(cc) and cc[0][0] == 'Ge' and cc[0][1] == cnt_t and is_const_cast(cc[0][2], ADR_ACK_LIMIT) for cc in cs)
-        good = lower and c_adr and c_cnt
+        extra = extra_conditions(cs, [lambda x: x[0] == adr_t and cond_true(x), lambda x: cond_true(x) and x[0][0] == 'Ge' and x[0][1] == cnt_t])
+        good = lower and c_adr and c_cnt and not extra
     res.require(good, 'C12:prepare_buffer:adr_ack_req', 'ADRACKReq is not adr ∧ adr_ack_cnt >= 64 ∧ lower data rate exists: %s' %
                 [(term_str(v), [(term_str(x[0]), x[1]) for x in cs]) for v, cs, bb in dl], site, 'SHAPE(adr_ack_req)',
                 instance='adr_ack_req = adr_enabled && adr_ack_cnt >= 64 && next_lower_datarate(..).is_some()')
@@ -184,7 +191,31 @@ def run(tier):
             res.require(has_false(cs, ('param', en)) or any(cond_true(x) and x[0] == ('Not', ('param', en)) for x in cs),
                         'C12:%s:adr_ack_cnt-guard' % rules.short_fn(p), 'ADR counter reset while ADR stays enabled', flow.Site(b, bb, si),
                         'DOM(reset => !enabled)', instance='%s resets the counter only when disabling ADR' % rules.short_fn(p))
-    # handle_rx reset is on the accept path (C05/C07 check the dominance); rx2_complete: saturating +1 under adr_enabled
+    # handle_rx: every accepted downlink restarts the count (the reset lies on every accept path)
+    hbf = c.bf(S + 'handle_rx')
+    mb, mt = one_call(hbf, 'EncryptedDataPayload::validate_mic')
+    oke = hbf.ok_edges(mt.dest.local)
+    (hb, hbb, hsi, hs, hkind) = w[S + 'handle_rx'][0]
+    okr = bool(oke) and hbf.guarded_by_edges(hbb, oke)
+    for (u, v) in oke:
+        if v != hbb and hbf.returns_reachable(v, avoid_nodes=[hbb]):
+            okr = False
+    res.require(okr, 'C12:handle_rx:adr_ack_cnt-reset-not-on-every-accept', 'an accepted downlink does not always restart the ADR count',
+                short_site(hbf, hbb, hsi), 'MPT(MIC ok -> adr_ack_cnt = 0)', instance='every accepted downlink resets adr_ack_cnt')
+    # ACK owed: set on every accepted confirmed downlink (no extra guard)
+    for sbf, sbb, stt in setters:
+        if sbf.body.path == S + 'handle_rx':
+            cb, ct = one_call(sbf, 'EncryptedDataPayload::is_confirmed')
+            cs2 = path_conditions(sbf, sbb)
+            cs_mic = path_conditions(sbf, oke[0][1]) if oke else []
+            base = set((repr(x[0]), repr(x[1])) for x in cs_mic)
+            conf_term = term_of_local(sbf, ct.dest.local)
+            extra = [x for x in cs2 if (repr(x[0]), repr(x[1])) not in base and not (x[0] == conf_term and cond_true(x))
+                     and not (x[0][0] == 'call' and x[0][1].endswith('validate_mic') and cond_true(x))]
+            res.require(not extra, 'C12:handle_rx:ack-owed-extra-guard', 'an accepted confirmed downlink does not always make the next uplink carry ACK: extra guard %s'
+                        % [(term_str(x[0]), x[1]) for x in extra], short_site(sbf, sbb), 'EXACT-GUARD(ack owed <=> accepted ∧ confirmed)',
+                        instance='ACK owed on every accepted confirmed downlink')
+    # rx2_complete: saturating +1 under adr_enabled
     rbf = c.bf(S + 'rx2_complete')
     rself = param_by_name(rbf.body, 'self'); rconf = param_by_name(rbf.body, 'configuration'); rreg = param_by_name(rbf.body, 'region')
     (b, bb, si, s, kind) = w[S + 'rx2_complete'][0]
@@ -196,7 +227,13 @@ def run(tier):
     cs = path_conditions(rbf, bb)
     res.require(has_true(cs, fld(rconf, 'adr_enabled')), 'C12:rx2_complete:adr_ack_cnt-guard', 'ADR counter advanced while ADR is disabled', short_site(rbf, bb, si),
                 'DOM(count => adr_enabled)', instance='rx2_complete counts only while adr_enabled')
-    # the count happens on every adr_enabled path that increments fcnt_up
+    MAXC = 0xFFFFFFFF
+    not_expired = lambda x: x[0][0] == 'Eq' and x[0][1] == fld(rself, 'fcnt_up') and x[0][2] == ('const', MAXC) and cond_false(x)
+    adr_on = lambda x: x[0] == fld(rconf, 'adr_enabled') and cond_true(x)
+    extra = extra_conditions(cs, [not_expired, adr_on])
+    res.require(not extra, 'C12:rx2_complete:adr_ack_cnt-extra-guard', 'uplinks are not counted on every ADR-enabled uplink: extra guard %s' %
+                [(term_str(x[0]), x[1]) for x in extra], short_site(rbf, bb, si), 'EXACT-GUARD(count <=> adr_enabled)',
+                instance='rx2_complete counts every uplink while adr_enabled (no further guard)')
     # ---- back-off store
     D = 'lorawan_device::mac::Configuration'
     AS = 'lorawan_device::async_device::Device::set_datarate'
@@ -222,6 +259,13 @@ def run(tier):
     res.require(g_adr and g_ge and g_mul and g_some, 'C12:rx2_complete:backoff-guard',
                 'back-off guard is not adr ∧ cnt >= 96 ∧ (cnt-64) %% 32 == 0 ∧ Some(lower): adr=%s ge=%s mul=%s some=%s' % (g_adr, g_ge, g_mul, g_some),
                 short_site(rbf, bb, si), 'SHAPE(back-off guard)', instance='back-off guard: adr_enabled ∧ cnt >= 96 ∧ (cnt-64) %% 32 == 0 ∧ lower rate exists')
+    bo_allowed = [not_expired, adr_on,
+                  lambda x: cond_true(x) and x[0][0] == 'Ge' and x[0][1] == cnt_t,
+                  lambda x: cond_true(x) and x[0][0] == 'call' and x[0][1].endswith('is_multiple_of'),
+                  lambda x: x[0][0] == 'discr' and x[0][1][:2] == nl and x[1] in ((1,), ('not', (0,)))]
+    extra = extra_conditions(cs, bo_allowed)
+    res.require(not extra, 'C12:rx2_complete:backoff-extra-guard', 'back-off has an additional guard: %s' % [(term_str(x[0]), x[1]) for x in extra],
+                short_site(rbf, bb, si), 'EXACT-GUARD(back-off)', instance='back-off has no guard beyond adr ∧ cnt>=96 ∧ multiple ∧ lower exists')
     # the counter used in the guard is the value after this uplink's increment (store dominates the test)
     cnt_store_bb = [x[1] for x in c.pf.writers_of_field('session::Session', 'adr_ack_cnt', crates={'lorawan_device'}) if x[0].path == S + 'rx2_complete'][0]
     res.require(rbf.cfg.dominates(cnt_store_bb, bb), 'C12:rx2_complete:backoff-order', 'back-off tested before the uplink is counted', short_site(rbf, bb, si),
